@@ -202,3 +202,9 @@ claim('C42', 'other',
       'arms (new / existing / vanished host) each act and raise the rebuild flag, with the location comparison evaluated unconditionally (not a lazy '
       'short-circuit operand); rebuild guard facts; on_down/on_up bracket of a location change; test-and-set metadata mutators under the hosts lock. '
       'Sequences of snapshots are not decided', 'finite truth table + syntax-directed must-evaluate rule + CFG branch facts + lock regions', _TB, 'DESIGN.md section 5 C42')
+
+claim('C43', 'other',
+      'static analysis: the peer-counting guard folded over known x is_up in {None, False, True}; verdict facts of _get_schema_mismatches (None iff one version); '
+      'wait loop: True only right after a fresh mismatch computation that returned None, False only after the loop condition failed, elapsed refreshed on every '
+      'path to the loop test; _refresh_schema verdict facts and the schema-change future recording it. Snapshot sequences and the clock are not decided',
+      'finite-domain guard folding + CFG dataflow with branch facts and freshness state', _TB, 'DESIGN.md section 5 C43')
